@@ -289,6 +289,136 @@ theorem C04_grs_single_sha :
   intro c hc
   cases c <;> first | exact absurd rfl hc | exact ⟨rfl, rfl, rfl⟩
 
+/-! ## every coin class, by name -/
+
+/-- C04.tx_hash_hashtype: `Tx.hash(hash_type)` of each of the five transaction classes digests the witness-free
+serialisation of the transaction followed by the hash type as four little-endian bytes … -/
+theorem C04_tx_hash_hashtype (c : Coin) (tx : Tx) (hwf : tx.WF) (ht : Nat) (hht : ht < 2 ^ 32) :
+    hashTypePreimage c tx ht = .ok (Spec.Wire.legacy tx ++ le 4 ht) := by
+  have hstream := stream_eq_spec tx hwf false
+  simp only [Bool.false_and, Bool.false_eq_true, if_false] at hstream
+  have hU : U32 (ht : Int) := ⟨by omega, by omega⟩
+  have hL := streamStruct_L_eq (ht : Int) hU
+  unfold hashTypePreimage
+  rw [hstream, c_fmt c, hL]
+  simp only [Int.toNat_natCast]
+
+/-- … with the digest the class uses for `Tx.hash()` (transaction ids): double SHA-256, single for Groestlcoin -/
+theorem C04_tx_hash_digest (c : Coin) :
+    legacySingleSha c = c.singleSha ∧ (c.singleSha = true ↔ c = .grs) := by cases c <;> exact ⟨rfl, by decide⟩
+
+theorem hashTypePreimage_ltc (tx : Tx) (ht : Nat) : hashTypePreimage .ltc tx ht = hashTypePreimage .btc tx ht := by
+  simp only [hashTypePreimage, c_fmt]
+
+theorem legacyPreimage_ltc (tx : Tx) (script : Bytes) (idx ht : Nat) :
+    Sighash.legacyPreimage .ltc tx script idx ht = Sighash.legacyPreimage .btc tx script idx ht := by
+  unfold Sighash.legacyPreimage
+  simp only [hashTypePreimage_ltc]
+
+/-- C04.ltc_eq_btc: the Litecoin class runs the Bitcoin algorithm, on every path and for every input (in scope or not) -/
+theorem C04_ltc_eq_btc (tx : Tx) (us : List (Option TxOut)) (script : Bytes) (sigs : List Bytes) (idx ht : Nat) :
+    signatureHash .ltc tx us script idx ht = signatureHash .btc tx us script idx ht ∧
+    segwitSignatureHash .ltc tx us script idx ht = segwitSignatureHash .btc tx us script idx ht ∧
+    sighashF .ltc tx us script sigs idx ht = sighashF .btc tx us script sigs idx ht ∧
+    witnessSighashF .ltc tx us script sigs idx ht = witnessSighashF .btc tx us script sigs idx ht := by
+  have h1 : ∀ script, signatureHash .ltc tx us script idx ht = signatureHash .btc tx us script idx ht := by
+    intro script
+    unfold signatureHash legacySignatureHash
+    simp only [legacyPreimage_ltc]
+    rfl
+  refine ⟨h1 script, rfl, ?_, rfl⟩
+  unfold sighashF
+  simp only [h1]
+  rfl
+
+/-- C04.btc_ltc_legacy: Bitcoin and Litecoin, pre-segwit: consensus' `SignatureHash` with double SHA-256 -/
+theorem C04_btc_ltc_legacy (c : Coin) (hc : c = .btc ∨ c = .ltc) (tx : Tx) (us : List (Option TxOut)) (hwf : tx.WF)
+    (idx : Nat) (hidx : idx < tx.ins.length) (script : Bytes) (hs : TailWritten script) (hlen : LenOk script)
+    (ht : Nat) (hht : ht < 2 ^ 32) :
+    signatureHash c tx us script idx ht =
+      .ok (beNat (signatureHashLegacy Pycoin.Hash.dsha256 tx idx script ht)) := by
+  rcases hc with rfl | rfl
+  · rw [C04_legacy_digest_eq_tailWritten .btc rfl tx us hwf idx hidx script hs hlen ht hht]
+    simp [legacySingleSha, Gen.Sighash.btc_legacySingleSha, sha_false]
+  · rw [C04_legacy_digest_eq_tailWritten .ltc rfl tx us hwf idx hidx script hs hlen ht hht]
+    simp [legacySingleSha, Gen.Sighash.ltc_legacySingleSha, sha_false]
+
+theorem sha_true : sha true = Pycoin.Hash.sha256 := by
+  funext b; simp [sha]
+
+/-- C04.grs_legacy: Groestlcoin, pre-segwit, for every hash type: the bytes digested are consensus' legacy message, the
+digest is one SHA-256 of it, and SIGHASH_SINGLE without a matching output gives the constant one -/
+theorem C04_grs_legacy (tx : Tx) (us : List (Option TxOut)) (hwf : tx.WF)
+    (idx : Nat) (hidx : idx < tx.ins.length) (script : Bytes) (hs : TailWritten script) (hlen : LenOk script)
+    (ht : Nat) (hht : ht < 2 ^ 32) :
+    Sighash.legacyPreimage .grs tx script idx ht =
+      .ok (if fHashSingle ht && decide (idx ≥ tx.outs.length) then none
+           else some (Spec.Sighash.legacyPreimage tx idx script ht)) ∧
+    signatureHash .grs tx us script idx ht =
+      .ok (beNat (signatureHashLegacy Pycoin.Hash.sha256 tx idx script ht)) := by
+  refine ⟨legacyPreimage_eq_tw .grs tx hwf idx hidx script hs hlen ht hht, ?_⟩
+  rw [C04_legacy_digest_eq_tailWritten .grs rfl tx us hwf idx hidx script hs hlen ht hht]
+  simp [legacySingleSha, Gen.Sighash.grs_legacySingleSha, sha_true]
+
+/-- C04.grs_segwit: Groestlcoin, witness v0, for every hash type: the BIP143 message with its three part hashes taken
+with one SHA-256, digested with one SHA-256 -/
+theorem C04_grs_segwit (tx : Tx) (hwf : tx.WF) (us : List (Option TxOut)) (idx : Nat)
+    (hidx : idx < tx.ins.length) (o : TxOut) (hu : us[idx]? = some (some o)) (hamt : U64 o.value) (script : Bytes)
+    (hlen : LenOk script) (ht : Nat) (hht : ht < 2 ^ 32) :
+    segwitPreimage .grs tx us script idx ht =
+      .ok (bip143Preimage Pycoin.Hash.sha256 tx idx script o.value.toNat ht) ∧
+    segwitSignatureHash .grs tx us script idx ht =
+      .ok (beNat (signatureHashBip143 Pycoin.Hash.sha256 tx idx script o.value.toNat ht)) := by
+  constructor
+  · rw [segwitPreimage_eq .grs tx hwf us idx hidx o hu hamt script hlen ht hht]
+    simp [segwitPartsSingleSha, Gen.Sighash.grs_segwitPartsSingleSha, sha_true]
+  · rw [C04_bip143_digest_eq .grs (by decide) tx hwf us idx hidx o hu hamt script hlen ht hht]
+    simp [segwitSingleSha, Gen.Sighash.grs_segwitSingleSha, sha_true]
+
+/-- C04.btc_ltc_bch_segwit: Bitcoin, Litecoin and Bitcoin Cash, `_signature_for_hash_type_segwit`: BIP143 with double
+SHA-256 (for Bitcoin Cash this is the function behind its fork-id digest, `C04_forkid_eq_bch`) -/
+theorem C04_btc_ltc_bch_segwit (c : Coin) (hc : c = .btc ∨ c = .ltc ∨ c = .bch) (tx : Tx) (hwf : tx.WF)
+    (us : List (Option TxOut)) (idx : Nat)
+    (hidx : idx < tx.ins.length) (o : TxOut) (hu : us[idx]? = some (some o)) (hamt : U64 o.value) (script : Bytes)
+    (hlen : LenOk script) (ht : Nat) (hht : ht < 2 ^ 32) :
+    segwitSignatureHash c tx us script idx ht =
+      .ok (beNat (signatureHashBip143 Pycoin.Hash.dsha256 tx idx script o.value.toNat ht)) := by
+  have hne : c ≠ .btg := by rcases hc with rfl | rfl | rfl <;> decide
+  rw [C04_bip143_digest_eq c hne tx hwf us idx hidx o hu hamt script hlen ht hht]
+  rcases hc with rfl | rfl | rfl <;>
+    simp [segwitSingleSha, Gen.Sighash.btc_segwitSingleSha, Gen.Sighash.ltc_segwitSingleSha, Gen.Sighash.bch_segwitSingleSha,
+      sha_false]
+
+/-! ## SIGHASH_SINGLE without a matching output, under each class -/
+
+/-- C04.single_out_of_range (legacy; Bitcoin, Litecoin, Groestlcoin): with base type SIGHASH_SINGLE and no output at the
+input's position `_signature_hash` returns `1 << 248` — the integer of consensus' `uint256::ONE` bytes — for **every**
+transaction, script code and value of the other hash-type bits, in range or not: nothing is digested -/
+theorem C04_single_out_of_range (c : Coin) (hc : requiresForkId c = false) (tx : Tx) (us : List (Option TxOut))
+    (script : Bytes) (idx ht : Nat) (hs : fHashSingle ht = true) (hidx : idx ≥ tx.outs.length) :
+    signatureHash c tx us script idx ht = .ok (2 ^ 248) ∧ (2 ^ 248 : Nat) = beNat Spec.Sighash.one := by
+  refine ⟨?_, by rw [beNat_one]; decide⟩
+  have h3 : ht &&& 0x1f = 3 := by simpa [fHashSingle, SIGHASH_SINGLE] using hs
+  have hnone : tx.outs[idx]? = none := List.getElem?_eq_none hidx
+  unfold signatureHash legacySignatureHash Sighash.legacyPreimage
+  simp only [hc, Bool.false_eq_true, if_false, (strip_serializeScriptCode_all script).1]
+  unfold legacyTmpTx blank
+  have hv : Gen.Sighash.singleBugValue = 2 ^ 248 := by decide
+  simp [c_mask, c_none, c_single, h3, hnone, hv]
+
+/-- C04.single_out_of_range (BIP143: witness inputs of every class, every input of Bitcoin Cash and Bitcoin Gold): no
+constant; the message is built as usual with hashOutputs = 32 zero bytes, in pycoin (`_hash_outputs`) as in BIP143 -/
+theorem C04_single_out_of_range_bip143 (c : Coin) (H : Bytes → Bytes) (tx : Tx) (idx ht : Nat)
+    (hs : fHashSingle ht = true) (hidx : idx ≥ tx.outs.length) :
+    Sighash.hashOutputs c tx ht idx = .ok zero32 ∧ Spec.Sighash.hashOutputs H tx idx ht = Spec.Sighash.zero32 := by
+  have h3 : ht &&& 0x1f = 3 := by simpa [fHashSingle, SIGHASH_SINGLE] using hs
+  have hnone : tx.outs[idx]? = none := List.getElem?_eq_none hidx
+  constructor
+  · unfold Sighash.hashOutputs
+    simp [parts_eq, h3, c_single, hidx]
+  · unfold Spec.Sighash.hashOutputs
+    simp [hs, hnone]
+
 /-! ## purity -/
 
 /-- C04.sighash_pure: the call returns a digest (or raises) and leaves the transaction and its unspents as they were;
@@ -312,5 +442,11 @@ def exUs : List (Option TxOut) := [some ⟨7, [0x51]⟩, some ⟨8, []⟩, some 
 #guard (match signatureHash .bch exTx exUs exCode 0 0x01 with | .error .scriptError => true | _ => false)
 #guard (match segwitSignatureHash .btg exTx exUs exCode 0 0x01 with | .error .scriptError => true | _ => false)
 #guard (match deleteSignature [0x51, 0x02, 0x30, 0x01, 0xac] [0x30, 0x01] with | .ok b => b == [0x51, 0xac] | _ => false)
+
+#guard decide (TailWritten exCode) && decide (TailWritten [0x51, 0x4c]) && !decide (TailWritten [0x51, 0x4d, 0x05])
+#guard (match signatureHash .grs exTx exUs exCode 2 0x03, signatureHash .ltc exTx exUs exCode 2 0xc3 with
+  | .ok a, .ok b => a == 2 ^ 248 && b == 2 ^ 248 | _, _ => false)
+#guard (match deleteSignatures [0x51, 0x01, 0x30, 0x01, 0x31, 0x05, 0x01, 0x30] [[0x30], [0x31]] with
+  | .ok b => b == [0x51, 0x05, 0x01, 0x30] && b == scriptCodeFor [0x51, 0x01, 0x30, 0x01, 0x31, 0x05, 0x01, 0x30] [[0x30], [0x31]] | _ => false)
 
 end Pycoin.Sighash
